@@ -72,6 +72,10 @@ class ExprMixin:
                 return SModule(val)
             if kind == 'external':
                 return SFunc(None, builtin=val)
+            if kind == 'assign' and isinstance(val, ast.Call) and isinstance(val.func, ast.Name) \
+                    and val.func.id == 'object' and not val.args:
+                r2 = self.repo.resolve_global(module, n)
+                return SStr(self.W.sentinel('%s.%s' % (self.defining_module(module, n), n)))
             if kind == 'assign':
                 # module-level singletons: logger, s3 = S3(), main = CLI()
                 return SModule('%s.%s' % (module, n))
@@ -81,6 +85,20 @@ class ExprMixin:
         if n in BUILTIN_EXC_BASES:
             return SCls(n)
         raise ToolLimit('unknown name %s' % n)
+
+    def defining_module(self, module, n, depth=0):
+        g = self.repo.module_globals.get(module, {})
+        if n in g and g[n][0] == 'import' and depth < 5:
+            frm, level, orig = g[n][1]
+            if level:
+                parts = module.split('.')
+                base = '.'.join(parts[:len(parts) - level])
+                target = '%s.%s' % (base, frm) if frm else base
+            else:
+                target = frm
+            if target in self.repo.module_globals:
+                return self.defining_module(target, orig, depth + 1)
+        return module
 
     def ex_Tuple(self, e, st, fx):
         out = []
